@@ -57,6 +57,15 @@ def tree_oracle(name, est, rep):
                 f(f"map_deep({lev}, <single label>) != top-level label of that sample", "map_deep")
         except Exception as e:
             f(f"map_deep({lev}) raises {type(e).__name__}", "map_deep")
+    # a level that does not exist is refused, whichever side it is counted from
+    for lev in (len(est.layers), -len(est.layers) - 1):
+        try:
+            got = est.map_deep(lev, np.asarray(est.layers[-1].labels_a))
+            f(f"map_deep({lev}, ...) on {len(est.layers)} layers returns {np.asarray(got).tolist()[:8]}.. instead of refusing the level", "map_deep")
+        except (IndexError, AssertionError, ValueError):
+            pass
+        except Exception:
+            pass
     return fails
 
 
